@@ -95,28 +95,34 @@ theorem updateFrom_rangeKeep (o : RenderOptions) : Pres RangeKeep (updateFrom o)
   unfold updateFrom
   wp_go
 
+/-- the state that `document.init()` produces from `s` (the scratch fields `log`, `listIds`, `saved` are kept) -/
+def initState (s : Session) : Session :=
+  { s with
+    classes := [], id := [], css := [], attributes := [], opts := {}, ids := [],
+    safeMode := Gen.defaultSafeMode, htmlReplacement := Gen.defaultHtmlReplacement, callback := false,
+    blockDefs := Gen.blockDefaultDefs, macroDefs := Gen.macroDefaultDefs,
+    quoteDefs := Gen.quoteDefaultDefs, replDefs := Gen.replDefaultDefs }
+
+theorem apiPrefix_run (o : RenderOptions) (s : Session) :
+    (apiPrefix o).run s = (updateFrom o).run (if s.safeMode == -1 then initState s else s) := by
+  unfold apiPrefix
+  rw [run_bind]
+  simp only [run_get]
+  split
+  · rw [run_bind, run_documentInit]; rfl
+  · rfl
+
 /-- The call's own options leave the safe mode in range, from an uninitialised or a well-formed session. -/
 theorem apiPrefix_modeOk (opts : RenderOptions) (s s₁ : Session) (h : s.safeMode = -1 ∨ ModeOk s)
     (hr : (apiPrefix opts).run s = .ok ((), s₁)) : ModeOk s₁ := by
-  unfold apiPrefix at hr
-  rw [run_bind] at hr
-  simp only [run_get] at hr
-  rw [run_bind] at hr
-  split at hr
+  rw [apiPrefix_run] at hr
+  refine updateFrom_rangeKeep opts _ () s₁ hr ?_
+  split
+  · exact ⟨by simp [initState], by simp [initState]⟩
   · next hinit =>
-    split at hr
-    · next u s' hi =>
-      rw [run_documentInit] at hi
-      injection hi with hi; injection hi with _ hi; subst hi
-      exact updateFrom_rangeKeep opts _ () s₁ hr ⟨by simp, by simp⟩
-    · cases hr
-  · next hinit =>
-    simp only [run_pure] at hr
-    have hm : ModeOk s := by
-      rcases h with h | h
-      · simp [h] at hinit
-      · exact h
-    exact updateFrom_rangeKeep opts _ () s₁ hr hm
+    rcases h with h | h
+    · simp [h] at hinit
+    · exact h
 
 /-- **The safe mode is always an integer from 0 to 15.**  After any successful `render` call, from the
     uninitialised state or from a state whose safe mode is in range. -/
@@ -150,20 +156,121 @@ theorem document_options_only_at_mode0 (env : Env) (fuel : Nat) (src : Str) (s s
   have := untrusted_source_cannot_change_definitions env fuel src s s' html h hm
   exact ⟨this.1, this.2.1⟩
 
+/-! ## `setOption` and `updateFrom` as total state transformers -/
+
+/-- what `options.errorCallback` does to the state -/
+def logMsg (msg : Str) (s : Session) : Session := if s.callback then { s with log := s.log ++ [msg] } else s
+
+/-- `options.setOption` never raises: it is this function on states. -/
+def setOptionPure (name : Str) (value : PyVal) (s : Session) : Session :=
+  if name == "safeMode".toList then
+    match pyInt value.toStr with
+    | none => logMsg ("illegal safeMode API option value: ".toList ++ value.toStr) s
+    | some n =>
+      if n < 0 || n > 15 then logMsg ("illegal safeMode API option value: ".toList ++ value.toStr) s
+      else { s with safeMode := n }
+  else if name == "reset".toList then
+    if value == .none || value.eqFalse || value == .str "false".toList then s
+    else if value.eqTrue || value == .str "true".toList then initState s
+    else logMsg ("illegal reset API option value: ".toList ++ value.toStr) s
+  else if name == "htmlReplacement".toList then { s with htmlReplacement := value.toStr }
+  else logMsg ("illegal API option name: ".toList ++ name) s
+
+theorem setOption_run (name : Str) (value : PyVal) (s : Session) :
+    (setOption name value).run s = .ok ((), setOptionPure name value s) := by
+  unfold setOption setOptionPure
+  by_cases h1 : (name == "safeMode".toList) = true
+  · simp only [h1, if_true]
+    cases pyInt value.toStr with
+    | none => rfl
+    | some n =>
+      by_cases h2 : (decide (n < 0) || decide (n > 15)) = true
+      · simp only [h2, if_true]; rfl
+      · simp only [h2]; rfl
+  · simp only [h1]
+    by_cases h2 : (name == "reset".toList) = true
+    · simp only [h2, if_true]
+      by_cases h3 : (value == PyVal.none || value.eqFalse || value == PyVal.str "false".toList) = true
+      · simp only [h3, if_true]; rfl
+      · simp only [h3]
+        by_cases h4 : (value.eqTrue || value == PyVal.str "true".toList) = true
+        · simp only [h4, if_true]; rfl
+        · simp only [h4]; rfl
+    · simp only [h2]
+      by_cases h3 : (name == "htmlReplacement".toList) = true
+      · simp only [h3, if_true]; rfl
+      · simp only [h3]; rfl
+
+/-- `options.updateFrom` as a state transformer -/
+def updateFromPure (o : RenderOptions) (s : Session) : Session :=
+  let s1 := if s.callback then { s with callback := o.callback } else s
+  let s2 := setOptionPure "reset".toList o.reset s1
+  let s3 := if o.callback then { s2 with callback := true } else s2
+  let s4 := if o.safeMode != .none then setOptionPure "safeMode".toList (.str o.safeMode.toStr) s3 else s3
+  if o.htmlReplacement != .none then setOptionPure "htmlReplacement".toList o.htmlReplacement s4 else s4
+
+theorem updateFrom_run (o : RenderOptions) (s : Session) :
+    (updateFrom o).run s = .ok ((), updateFromPure o s) := by
+  unfold updateFrom updateFromPure
+  simp only [run_bind, run_get]
+  cases s.callback <;> cases o.callback <;> cases (o.safeMode != .none) <;> cases (o.htmlReplacement != .none) <;>
+    simp [setOption_run]
+
 /-- **Options not given in a call keep their session value**: with no option set, `updateFrom` changes nothing but
     the callback registration. -/
 theorem updateFrom_none (s : Session) :
     (updateFrom {}).run s = .ok ((), if s.callback then { s with callback := false } else s) := by
-  unfold updateFrom
-  simp only [run_bind, run_get]
-  cases hc : s.callback <;> simp [hc, run_bind, setOption_reset_none]
+  rw [updateFrom_run]
+  unfold updateFromPure setOptionPure
+  cases s.callback <;> simp
 
-/-- **Reset restores the defaults before the call's other options are applied**: with `reset = True` the state
-    after the options were applied is a function of the options alone (apart from the scratch fields that
-    `document.init` does not touch). -/
-theorem apiPrefix_reset (o : RenderOptions) (s₁ s₂ : Session) (hreset : o.reset = .bool true)
+/-- **Reset restores the defaults before the call's other options are applied**: with `reset = True` (or `'true'`)
+    the state after the options were applied does not depend on the session before the call, apart from the scratch
+    fields that `document.init` does not touch. -/
+theorem apiPrefix_reset (o : RenderOptions) (s₁ s₂ : Session)
+    (hreset : o.reset = .bool true ∨ o.reset = .str "true".toList)
     (hl : s₁.log = s₂.log) (hi : s₁.listIds = s₂.listIds) (hs : s₁.saved = s₂.saved) :
     (apiPrefix o).run s₁ = (apiPrefix o).run s₂ := by
-  sorry
+  have hrs : ∀ t : Session, setOptionPure "reset".toList o.reset t = initState t := by
+    intro t
+    have e1 : (PyVal.bool true == PyVal.none || (PyVal.bool true).eqFalse || PyVal.bool true == PyVal.str "false".toList) = false := by decide
+    have e2 : ((PyVal.bool true).eqTrue || PyVal.bool true == PyVal.str "true".toList) = true := by decide
+    have e3 : (PyVal.str "true".toList == PyVal.none || (PyVal.str "true".toList).eqFalse || PyVal.str "true".toList == PyVal.str "false".toList) = false := by decide
+    have e4 : ((PyVal.str "true".toList).eqTrue || PyVal.str "true".toList == PyVal.str "true".toList) = true := by decide
+    rcases hreset with h | h
+    · rw [h]; unfold setOptionPure; simp only [name_rs_sm, name_rs_rs, e1, e2]; rfl
+    · rw [h]; unfold setOptionPure; simp only [name_rs_sm, name_rs_rs, e3, e4]; rfl
+  have key : ∀ s : Session, updateFromPure o (if s.safeMode == -1 then initState s else s) =
+      updateFromPure o (initState s) := by
+    intro s
+    have hcb : ∀ t : Session, initState (if t.callback then { t with callback := o.callback } else t) = initState t := by
+      intro t; split <;> rfl
+    have h2 : initState (if s.safeMode == -1 then initState s else s) = initState s := by split <;> rfl
+    have hii : initState (initState s) = initState s := rfl
+    unfold updateFromPure
+    simp only [hrs, hcb, h2, hii]
+  have hinit : initState s₁ = initState s₂ := by
+    unfold initState
+    cases s₁; cases s₂
+    simp_all
+  rw [apiPrefix_run, apiPrefix_run, updateFrom_run, updateFrom_run, key s₁, key s₂, hinit]
+
+/-! ## Non-vacuity -/
+
+/-- the hypotheses of the rejection theorem are met by a non-numeric, a float-looking, a boolean-looking and an
+    out-of-range value; those of the acceptance theorem by `' 7 '` -/
+example : pyInt (PyVal.str "junk".toList).toStr = none ∧ pyInt (PyVal.str "2.0".toList).toStr = none ∧
+    pyInt (PyVal.bool true).toStr = none ∧ pyInt (PyVal.int 16).toStr = some 16 ∧
+    pyInt (PyVal.str " 7 ".toList).toStr = some 7 := by decide
+
+/-- a reachable session: two renders from a fresh process, the second with an illegal safe mode, which leaves
+    the mode set by the first -/
+example :
+    (match (apiRender ⟨fun _ _ => .error⟩ 20 "x".toList { safeMode := .int 5 }).run Session.uninit with
+     | .ok (_, s) =>
+       (match (apiRender ⟨fun _ _ => .error⟩ 20 "y".toList { safeMode := .str "junk".toList }).run s with
+        | .ok (_, s') => s'.safeMode == 5
+        | .error _ => false)
+     | .error _ => false) = true := by decide +kernel
 
 end Props.C20
